@@ -25,11 +25,21 @@ def parse_strace(path, udir):
     """file operations on the user directory, in order: [('FCreate', name) | ('FWrite', name, nbytes) | ('FRename', a, b)]"""
     fd = {}
     ops = []
+    pending = {}
     for line in open(path, errors="replace"):
-        m = re.match(r"\d+\s+(\w+)\((.*)\)\s+=\s+(-?\d+)", line)
-        if not m:
+        # a call that another thread's call interrupts in the log is printed in two pieces
+        mu = re.match(r"(\d+)\s+(\w+)\((.*)<unfinished \.\.\.>", line)
+        if mu:
+            pending[mu.group(1)] = (mu.group(2), mu.group(3))
             continue
-        sc, args, ret = m.group(1), m.group(2), int(m.group(3))
+        mr = re.match(r"(\d+)\s+<\.\.\. (\w+) resumed>(.*)\)\s+=\s+(-?\d+)", line)
+        if mr and mr.group(1) in pending and pending[mr.group(1)][0] == mr.group(2):
+            sc, args, ret = mr.group(2), pending.pop(mr.group(1))[1] + mr.group(3), int(mr.group(4))
+        else:
+            m = re.match(r"\d+\s+(\w+)\((.*)\)\s+=\s+(-?\d+)", line)
+            if not m:
+                continue
+            sc, args, ret = m.group(1), m.group(2), int(m.group(3))
         if sc in ("openat", "open", "creat") and ret >= 0:
             pm = re.search(r'"([^"]+)"', args)
             if pm and os.path.dirname(pm.group(1)) == udir and os.path.basename(pm.group(1)) in NAMES:
